@@ -362,8 +362,12 @@ def c21InScope (cfg : Cfg) (fs : List (String × Val)) : Bool :=
   (cfg.tn ++ cfg.pn).all (fun k => !reserved k) && cfg.tn.all (fun k => !cfg.pn.contains k)
     && ks.eraseDups.length == ks.length && !ks.contains kRoot && !ks.contains kProbe
 
+/-- `a` and `b` are different names that differ only in letter case -/
+def caseVariantOf (a b : String) : Bool := a != b && a.toLower == b.toLower
+
 def c21Cause (cfg : Cfg) (fs : List (String × Val)) : String :=
-  if hasEmptyStrAt fs kTid then "empty-meta-trace-id"
+  if fs.any (fun kv => (cfg.tn ++ cfg.pn).any (caseVariantOf kv.1)) then "case-variant-of-id-field"
+  else if hasEmptyStrAt fs kTid then "empty-meta-trace-id"
   else if (cfg.tn.filterMap (nonEmptyStrAt fs)).eraseDups.length ≥ 2 then "several-trace-id-fields"
   else "other"
 
@@ -458,11 +462,16 @@ def c20Check (m : MSt) (obs : String) : List Fail :=
           else if (m.path == "jb" || m.path == "js") && cmpStr (maskF64 e.2) == cmpStr (maskF64 kv.2) then
             s!"json-number-not-nearest-float:path={m.path}"
           else tagName kv.2
+        let cls := if m.cfg.sk.contains kv.1 && inKeys.any (caseVariantOf kv.1) then "case-variant-of-key-field" else cls
         mk s!"C20:value-altered:{cls}" s!"client field {encTok kv.1} sent as {want} re-encoded as {cmpStr e.2}"
     let added := out.flatMap fun e =>
       if reserved e.1 || inKeys.contains e.1 then [] else
       match m.sets.find? (fun s => s.1 == e.1) with
-      | none => mk "C20:field-added" s!"key {encTok e.1} was neither sent by the client nor set by Refinery"
+      | none =>
+        if m.cfg.sk.contains e.1 && inKeys.any (caseVariantOf e.1) then
+          mk "C20:field-invented:case-variant-of-key-field"
+            s!"key {encTok e.1} (a sampler key field) was not sent by the client, only a name differing in letter case"
+        else mk "C20:field-added" s!"key {encTok e.1} was neither sent by the client nor set by Refinery"
       | some s => if cmpStr e.2 == cmpStr s.2 then [] else
           mk "C20:set-value-altered" s!"Refinery set {encTok e.1} to {renderStr s.2}, re-encoded as {cmpStr e.2}"
     dups ++ lostOrAltered ++ added
